@@ -144,7 +144,22 @@ func vProg_loops(env *Zlisp) []Sexp {
 		return vA(e, vL(s("def"), s(v), vI(0)), vL(s("<"), s(v), lim), inc(v))
 	}
 	var loop Sexp
-	switch vChoice("shape", 8) {
+	switch vChoice("shape", 11) {
+	case 8: // break in a guarded cond arm inside a let inside the loop
+		loop = vL(s("for"), ctl("i", limit),
+			vL(s("let"), vA(e, s("x"), s("i")),
+				vL(s("cond"), vL(s("=="), s("x"), k), vL(s("break")), SexpNull),
+				vL(s("t"), s("x"))))
+	case 9: // continue in a guarded arm inside newScope
+		loop = vL(s("for"), ctl("i", limit),
+			vL(s("newScope"), vL(s("def"), s("y"), s("i")),
+				vL(s("cond"), vL(s("=="), s("y"), k), vL(s("continue")), vL(s("t"), s("y")))),
+			vL(s("t"), vI(100)))
+	case 10: // labelled break of the outer loop from a guarded arm inside let inside the inner loop
+		loop = vL(s("for"), s("outer:"), ctl("i", limit),
+			vL(s("for"), ctl("j", vI(2)),
+				vL(s("let"), vA(e, s("z"), vL(s("+"), s("i"), s("j"))),
+					vL(s("cond"), vL(s("=="), s("z"), k), vL(s("break"), s("outer:")), vL(s("<"), s("z"), vI(0)), vL(s("continue"), s("outer:")), vL(s("t"), s("z"))))))
 	case 0: // plain loop, trace each index
 		loop = vL(s("for"), ctl("i", limit), vL(s("t"), s("i")))
 	case 1: // break when i == k
@@ -180,7 +195,10 @@ func vProg_loops(env *Zlisp) []Sexp {
 				s("m")),
 			vL(s("+"), vL(s("f"), limit), vL(s("f"), vI(2))))
 	}
-	forms = append(forms, loop, vL(s("t"), s("a")))
+	// afterwards: the global a, and the names the loop used (a global i is
+	// defined first, so a loop scope left behind shows up as a wrong value)
+	forms = append([]Sexp{vL(s("def"), s("i"), vI(100)), vL(s("def"), s("j"), vI(200))}, forms...)
+	forms = append(forms, loop, vL(s("t"), s("a")), vL(s("t"), s("i")), vL(s("t"), s("j")))
 	return forms
 }
 
